@@ -255,13 +255,13 @@ Qed.
 Lemma load_dup : forall jparse s v, jparse (strip s) = Some v -> dup_in v ->
   load jparse s = LErr EDupKey.
 Proof.
-  intros jparse s v Hp Hd. unfold load. rewrite Hp. apply has_dup_iff in Hd. rewrite Hd. reflexivity.
+  intros jparse s v Hp Hd. unfold load, load_from. rewrite Hp. apply has_dup_iff in Hd. rewrite Hd. reflexivity.
 Qed.
 
 Lemma load_ok : forall jparse s l, jparse (strip s) = Some (JObj l) -> ~ dup_in (JObj l) ->
   load jparse s = LOk (JObj l).
 Proof.
-  intros jparse s l Hp Hd. unfold load. rewrite Hp.
+  intros jparse s l Hp Hd. unfold load, load_from. rewrite Hp.
   destruct (has_dup (JObj l)) eqn:E; [|reflexivity]. apply has_dup_iff in E. contradiction.
 Qed.
 
@@ -273,11 +273,74 @@ Lemma load_cases : forall jparse s,
   | LErr ENotMapping => exists v, jparse (strip s) = Some v /\ ~ dup_in v /\ forall l, v <> JObj l
   end.
 Proof.
-  intros. unfold load. destruct (jparse (strip s)) as [v|]; [|reflexivity].
+  intros. unfold load, load_from. destruct (jparse (strip s)) as [v|]; [|reflexivity].
   destruct (has_dup v) eqn:E.
   - exists v. split; [reflexivity | apply has_dup_iff; assumption].
   - assert (Hn : ~ dup_in v) by (intro H; apply has_dup_iff in H; congruence).
     destruct v; try (exists v; fail);
       try (eexists; split; [reflexivity | split; [assumption | intros l0 H0; discriminate]]).
     split; [reflexivity | split; [assumption | eexists; reflexivity]].
+Qed.
+
+(* ---------------- open choice: line-break rendering of the stripped text ---------------- *)
+Lemma fixnl_idem : forall c, fixnl (fixnl c) = fixnl c.
+Proof. intro c. unfold fixnl. destruct (is_nl c) eqn:E; [reflexivity | rewrite E; reflexivity]. Qed.
+
+Lemma strip_fixnl : forall s, map fixnl (strip s) = strip s.
+Proof.
+  intro s. unfold strip.
+  assert (H : Forall (Forall (fun c => is_nl c = false)) (map strip_line (lines s))).
+  { pose proof (lines_no_nl s) as Hl. induction Hl as [|l ls Hl _ IH]; simpl; constructor; [|assumption].
+    destruct (strip_line_prefix l) as (r & E). rewrite E in Hl. apply Forall_app in Hl. tauto. }
+  induction H as [|l ls Hl _ IH]; [reflexivity|].
+  assert (El : map fixnl l = l).
+  { clear -Hl. induction Hl as [|c l Hc _ IHl]; [reflexivity|]. simpl. rewrite IHl. unfold fixnl. rewrite Hc. reflexivity. }
+  destruct ls as [|l2 ls]; [simpl; exact El|].
+  change (unlines (l :: l2 :: ls)) with (l ++ cLF :: unlines (l2 :: ls)).
+  rewrite map_app. cbn [map]. change (fixnl cLF) with cLF. rewrite El, IH. reflexivity.
+Qed.
+
+(* the pinned behaviour is one allowed outcome ... *)
+Lemma strip_ok_pinned : forall s, strip_ok s (strip s).
+Proof. intro s. apply strip_fixnl. Qed.
+
+(* ... returning a text without '#' unchanged is another ... *)
+Lemma scanm_no_hash : forall l m, ~ In cH l -> scanm m l = None.
+Proof.
+  induction l as [|c l IH]; intros m H; [destruct m; reflexivity|].
+  assert (Hc : N.eqb c cH = false) by (apply N.eqb_neq; intro E; apply H; left; assumption).
+  assert (Hl : ~ In cH l) by (intro E; apply H; right; assumption).
+  destruct m; simpl; rewrite ?Hc; repeat match goal with |- context [if ?b then _ else _] => destruct b end;
+    rewrite IH by assumption; reflexivity.
+Qed.
+
+Lemma lines_in : forall s l c, In l (lines s) -> In c l -> In c s.
+Proof.
+  induction s as [|x s IH]; intros l c Hl Hc; simpl in Hl.
+  - destruct Hl as [<-|[]]. contradiction.
+  - destruct (is_nl x).
+    + destruct Hl as [<-|Hl]; [contradiction | right; eapply IH; eassumption].
+    + pose proof (lines_nonempty s) as Hn. destruct (lines s) as [|l0 ls] eqn:E; [contradiction|].
+      destruct Hl as [<-|Hl].
+      * destruct Hc as [<-|Hc]; [left; reflexivity | right; apply (IH l0 c); [left; reflexivity | assumption]].
+      * right. apply (IH l c); [right; assumption | assumption].
+Qed.
+
+Lemma strip_no_hash : forall s, ~ In cH s -> strip s = map fixnl s.
+Proof.
+  intros s H. unfold strip. rewrite <- unlines_lines. f_equal.
+  rewrite <- (map_id (lines s)) at 2. apply map_ext_in. intros l Hl.
+  unfold strip_line, scan. rewrite scanm_no_hash; [reflexivity|].
+  intro Hc. apply H. eapply lines_in; eassumption.
+Qed.
+
+Lemma strip_ok_unchanged : forall s, ~ In cH s -> strip_ok s s.
+Proof. intros s H. unfold strip_ok. symmetry. apply strip_no_hash. assumption. Qed.
+
+(* ... and every allowed outcome loads to the same result, JSON being blind to CR versus LF *)
+Lemma strip_ok_same_load : forall jparse s out, nl_blind jparse -> strip_ok s out ->
+  load_from jparse out = load jparse s.
+Proof.
+  intros jparse s out Hb Hok. unfold load, load_from.
+  rewrite (Hb out (strip s)); [reflexivity|]. rewrite strip_fixnl. exact Hok.
 Qed.
